@@ -740,7 +740,14 @@ pub fn run_c15(tier: &str, seed: u64, model: &Model, corpus_lines: Vec<String>, 
     rep.exhaustive_spaces.push("every documented option range at lo-1, lo, hi, hi+1 and the window/minimiser boundary w = m-1, m, m+1".into());
     run_section_cli(&mut rep, "boundaries", bcases, model, bin, work, seed);
     let n = if tier == "thorough" { 2500 } else { 230 };
-    let cases: Vec<CliCase> = (0..n).map(|_| gen_cli(&mut rng, false)).collect();
+    let mut cases: Vec<CliCase> = (0..n).map(|_| gen_cli(&mut rng, false)).collect();
+    // every input container once with the mapped oligo writer (file input, normalised), with and without the header
+    for container in ["fq", "fqwrap:9", "fawrap:7", "fagz", "fa"] {
+        for header in [false, true] {
+            let recs = fix_fq(seqs_ascii(&mut rng, 4, 4, 60, false), container);
+            cases.push(CliCase { sub: Sub::Oligo { k: *rng.pick(&[3u64, 4]), counts: false, header, preset: "spc".into(), threads: 2, stdin: false }, recs, container: container.into() });
+        }
+    }
     run_section_cli(&mut rep, "options", cases, model, bin, work, seed);
     // relations between real runs
     let nrel = if tier == "thorough" { 150 } else { 14 };
@@ -1170,6 +1177,10 @@ fn gen_history(r: &mut Rng) -> History {
                 for ch in 0..2u64 {
                     stale.push((format!("temp_kmers.part_{}_chunk_{}", p, ch), format!("{}\t{}\n", 1000 + p * 7 + ch, 3).into_bytes()));
                 }
+            }
+            // and what a run that died in its merge leaves: staging copies of the result files, longer than the new ones
+            for n in ["kmers.counts.tmp", "kmers.vectors.tmp", "kmers.counts.part"] {
+                stale.push((n.into(), b"123456789\t5\n".repeat(4000)));
             }
         } else {
             stale.push((String::new(), b"0.111111 0.222222 0.333333\n".repeat(30)));
